@@ -55,22 +55,35 @@ LARGE_DOC = [
 ]
 
 
-def parse_text(text):
+def parse_text(text, verbose=True):
     from dznpy.json_ast import DznJsonAst  # pylint: disable=import-outside-toplevel
     with contextlib.redirect_stdout(io.StringIO()):
-        return DznJsonAst(text, verbose=True).process()
+        return DznJsonAst(text, verbose=verbose).process()
+
+
+BOTH_MODES = [True]     # single faults are parsed with and without verbose logging (pairs: with)
 
 
 def classify(value):
     """'result' | 'DznJsonError' | 'NamespaceIdsTypeError' | other exception class name"""
     from dznpy.ast import FileContents  # pylint: disable=import-outside-toplevel
-    try:
-        res = parse_text(json.dumps(value))
-    except Exception as exc:  # pylint: disable=broad-except
-        return type(exc).__name__, repr(exc)
-    if isinstance(res, FileContents):
-        return 'result', ''
-    return 'non-FileContents:' + type(res).__name__, ''
+    verdicts = []
+    for verbose in ((True, False) if BOTH_MODES[0] else (True,)):
+        try:
+            res = parse_text(json.dumps(value), verbose)
+        except Exception as exc:  # pylint: disable=broad-except
+            verdicts.append((type(exc).__name__, repr(exc)))
+            continue
+        if isinstance(res, FileContents):
+            verdicts.append(('result', ''))
+        else:
+            verdicts.append(('non-FileContents:' + type(res).__name__, ''))
+    for v in verdicts:
+        if v[0] not in ('result', 'DznJsonError', 'NamespaceIdsTypeError'):
+            return v
+    if len({v[0] for v in verdicts}) > 1:
+        return 'verbose-changes-verdict:' + '/'.join(v[0] for v in verdicts), ''
+    return verdicts[0]
 
 
 def judge(case):
@@ -206,6 +219,7 @@ def work(job):
             _one(case, part, k % 1499 == 0)
             part.transitions += 1
     elif kind == 'pairs':
+        BOTH_MODES[0] = False
         name, seed, idx, nslots = job[1:]
         singles = list(all_single_faults(seed))
         k = 0
